@@ -26,11 +26,11 @@ RULE = ("operation histories (10-400 ops: single inserts, bulk inserts of 1-250 
         "order), never go backwards, equal the current state at the return of bucket-level ops (and of every op on "
         "peewee), and on sqlite miss at most 64 issued event writes. Real-crash tier: child processes run the same "
         "histories and are SIGKILLed at a chosen statement (or _exit / exit without shutdown / killed by the parent "
-        "after a random delay), some with megabytes of event data still uncommitted; the reopened file must pass SQLite's "
+        "after a random delay / interrupted by a KeyboardInterrupt that surfaces between two statements and lets the interpreter exit the orderly way), some with megabytes of event data still uncommitted; the reopened file must pass SQLite's "
         "integrity check and is judged the same way. evaluations = crash points decided; "
         "non-trivial = a crash point with a non-empty uncommitted tail; signature = (backend, tier, op kind in "
         "progress, statement kind, uncommitted-count bucket)")
-ASSUMPTIONS = ["process death only (SIGKILL, _exit, exit without shutdown); power loss / OS crash is not modelled",
+ASSUMPTIONS = ["process death only (SIGKILL, _exit, exit without shutdown, uncaught KeyboardInterrupt); power loss / OS crash is not modelled",
                "SQLite's own transaction atomicity is trusted", "an unreadable observer snapshot is inconclusive, not a violation"]
 
 
@@ -196,12 +196,25 @@ def gen_case(rng, ctx):
                 ops.append(dict(op="replace", b="b0", pick=rng.randrange(1000), ev=dict(ts=10**15 + i, dur=5, data={"uid": 3 * n0 + i, "payload": big})))
         return dict(kind="real", backend="sqlite" if ctx.widx % 4 == 0 else "peewee", ops=ops, mode=rng.choice(["_exit", "sigkill"]),
                     every=False, k=len(ops) - 1, delay_us=0, big=True)
+    if n_gen == 2:
+        # (odd workers) an interrupt after EVERY statement of a short history whose multi-statement operations - delete of a
+        # populated bucket, a bulk upsert - are thereby cut between any two of their statements
+        n0 = 7 * 10**6
+        ops = [dict(op="create_bucket", b="b0"), dict(op="create_bucket", b="b1"),
+               dict(op="bulk", b="b0", evs=[dict(ts=10**15 + i * 1000, dur=1000, data={"uid": n0 + i}) for i in range(rng.choice([3, 40]))]),
+               dict(op="insert", b="b1", ev=dict(ts=10**15, dur=0, data={"uid": n0 + 100})),
+               dict(op="read", b="b0", how="count"),
+               dict(op="insert", b="b0", ev=dict(ts=10**15 + 5, dur=0, data={"uid": n0 + 101})),
+               dict(op="upsert", b="b0", items=[dict(ev=dict(ts=10**15 + 9000 + j, dur=7, data={"uid": n0 + 200 + j}), pick=j) for j in range(3)]),
+               dict(op="delete_bucket", b="b0"),
+               dict(op="insert", b="b1", ev=dict(ts=10**15 + 1, dur=0, data={"uid": n0 + 102}))]
+        return dict(kind="real", backend="sqlite" if ctx.widx % 4 != 3 else "peewee", ops=ops, mode="interrupt", every=True, k=1, delay_us=0)
     backend = "sqlite" if rng.random() < 0.65 else "peewee"
     r = rng.random()
     if r < (0.3 if ctx.tier == "quick" else 0.3):
         # real crashes: short histories, every statement index (thorough) or a sample (quick)
         ops = gen_history(rng, rng.randrange(4, 14))
-        return dict(kind="real", backend=backend, ops=ops, eager=(backend == "sqlite" and rng.random() < 0.25), mode=rng.choice(["sigkill", "sigkill", "sigkill", "_exit", "exit", "parentkill"]),
+        return dict(kind="real", backend=backend, ops=ops, eager=(backend == "sqlite" and rng.random() < 0.25), mode=rng.choice(["sigkill", "sigkill", "sigkill", "_exit", "exit", "parentkill", "interrupt", "interrupt"]),
                     every=ctx.tier == "thorough", k=rng.randrange(1, 200), delay_us=rng.randrange(0, 3000))
     if r < 0.4:
         ops = storm(rng, rng.choice(STORM_KINDS), other=rng.choice([None, None, 10, 30]))
@@ -472,7 +485,9 @@ def run_child(case, mode, k, delay_us, ctx):
     except FileNotFoundError:
         pass
     note = ""
-    if p.returncode not in (0, -9) or (mode in ("sigkill",) and p.returncode == 0 and not any(e[0] == "done" for e in entries)):
+    if mode == "interrupt" and p.returncode in (-2, 1, 130) and b"KeyboardInterrupt" in err:
+        pass        # died of the interrupt, as intended
+    elif p.returncode not in (0, -9) or (mode in ("sigkill",) and p.returncode == 0 and not any(e[0] == "done" for e in entries)):
         note = f"child exit={p.returncode} stderr={err.decode(errors='replace')[-400:]}"
     return entries, path, jpath, note
 
@@ -564,7 +579,7 @@ def run_case(case, ctx):
     mode = case["mode"]
     if case.get("big"):
         ks = [nstmt] if mode == "sigkill" else [len(case["ops"]) - 1]
-    elif mode == "sigkill":
+    elif mode in ("sigkill", "interrupt"):
         ks = list(range(1, nstmt + 1)) if case["every"] else sorted({1 + (case["k"] * (i + 1) * 7919) % max(1, nstmt) for i in range(3)})
     elif mode in ("_exit", "exit"):
         nops = len(case["ops"])
